@@ -46,6 +46,23 @@ func (bm *blockMetadata) lessByKey(other *blockMetadata) bool {
 	return bm.dataBlock.offset < other.dataBlock.offset
 }
 
+// greaterByKey is the descending-scan counterpart of lessByKey. A descending merge
+// consumes every block from its maximum key downwards, so blocks have to be visited
+// by descending maxKey (not by descending minKey): only then is every block that can
+// still contribute a key greater than the ones already emitted in front of the scan.
+func (bm *blockMetadata) greaterByKey(other *blockMetadata) bool {
+	if bm.maxKey != other.maxKey {
+		return bm.maxKey > other.maxKey
+	}
+	if bm.minKey != other.minKey {
+		return bm.minKey > other.minKey
+	}
+	if bm.seriesID != other.seriesID {
+		return bm.seriesID > other.seriesID
+	}
+	return bm.dataBlock.offset > other.dataBlock.offset
+}
+
 type blockRef struct {
 	primaryIdx int
 	blockIdx   int
@@ -75,7 +92,7 @@ func (sc *seriesCursor) less(other *seriesCursor, asc bool) bool {
 	if asc {
 		return cur.lessByKey(otherCur)
 	}
-	return otherCur.lessByKey(cur)
+	return cur.greaterByKey(otherCur)
 }
 
 func (sc *seriesCursor) init(iter *partKeyIter, sid common.SeriesID, refs []blockRef) {
